@@ -5,16 +5,22 @@ import AsynqModel.Proofs.Debug
 
 Theorems about the model `AsynqModel.Debug` (Lib/Debug.lean).
 
-Headline statements (what the property text says, about the model):
-  filter : `C18_filter_sound`, `C18_filter_id`, `C18_filter_first_match`, observer `C18_filter_spec_holds` / `_observer_sound`
-  glue   : `C18_glue` (model = sequential reading `ref`), `C18_glue_crosses` / `_crosses_own` / `_crosses_hook` (the literal
-           "one frame per level in call order ending at the raiser"), `C18_glue_shape`
-  stack  : `C18_glue_refines_partial` (ALL events of a run = the reference events), `C18_glue_observer_exact`,
-           `C18_stack_orphan_counterexample` (open finding), `C18_stackSafe_exact_small` (the hypothesis is needed, and no more)
-  repr   : `C18_repr_holders_total` (every holder, every value shape), `C18_format_error_total`
-Statements that hold by construction of the model (kept, not headline; their content is the correspondence run):
-  `C18_repr_total_partial`, `C18_repr_raises_iff`, `C18_repr_spec_holds_partial`, `C18_extract_tb_hides_only_library`,
-  `C18_repr_flags_needed`.
+Headline statements (what the property text says, about the model; `HEADLINE` of harness/checks/c18.py):
+  filter : `C18_filter_sound` (the output is a rendering), `C18_filter_id`, `C18_filter_first_match`,
+           `C18_filter_observer_exact` / `_observer_sound` (what SPEC=ok means), `C18_filter_tablesOK_needed`
+  glue   : `C18_glue` (model = sequential reading `ref`), `C18_ref_passing_prefix`, `C18_glue_crosses` / `_crosses_own` /
+           `_crosses_hook` (the literal "one frame per level in call order ending at the raiser"), `C18_glue_shape`,
+           `C18_glue_starts_at_awaiter`
+  stack  : `C18_stack_events_exact`, `C18_stack_orphan_partial`, `C18_glue_refines_partial` (ALL events of a run = the
+           reference events), `C18_glue_observer_exact`, `C18_glue_spec_holds_partial`,
+           `C18_stack_orphan_counterexample` (the defect before the fix), `C18_stackSafe_exact_small` (the hypothesis is needed, and
+           no more), `C18_known_signature_exact` (the recorded finding's name is given to nothing but the predicted answer)
+Statements that hold by construction of the model (kept, NOT headline: `BY_CONSTRUCTION` of c18.py; the content of the
+str / repr / dump / format_error clause is the correspondence run on the real classes):
+  `C18_filter_spec_holds` (the observer demands the model's output), `C18_repr_total_partial`, `C18_repr_raises_iff`,
+  `C18_repr_spec_holds_partial`, `C18_repr_holders_total`, `C18_bare_percent_fails`, `C18_repr_flags_needed`,
+  `C18_format_error_total`, `C18_format_error_non_exception`, `C18_format_error_garbage_traceback_attr`,
+  `C18_extract_tb_hides_only_library`.
 -/
 namespace AsynqModel.Debug
 
@@ -28,30 +34,53 @@ theorem C18_filter_sound (tbl : List Repl) (hok : tablesOK tbl = true) (lines : 
     Renders tbl lines (filterTb tbl lines) :=
   go_renders tbl hok lines.length lines (Nat.le_refl _)
 
-/-- the Boolean observer the check evaluates on the implementation's output accepts the model's output -/
+/-- the Boolean observer the check evaluates on the implementation's output accepts the model's output.
+    BY CONSTRUCTION since the observer demands exactly that output (`C18_filter_observer_exact`); what the output IS, is
+    said by `C18_filter_sound` / `C18_filter_first_match`. -/
 theorem C18_filter_spec_holds (tbl : List Repl) (hok : tablesOK tbl = true) (lines : List Line) :
     filterClause tbl lines (filterTb tbl lines) = "ok" := by
-  have := rendersB_complete tbl (C18_filter_sound tbl hok lines)
-  simp [filterClause, hok, this]
+  simp [filterClause, hok]
 
-/-- what `SPEC=ok` means for an implementation output: it is a rendering in the sense of `Renders` -/
+/-- **what `SPEC=ok` means for an implementation output: it IS the model's output, and the table has no empty pattern
+    list** (both directions) -/
+theorem C18_filter_observer_exact (tbl : List Repl) (inp : List Line) (out : List Out) :
+    filterClause tbl inp out = "ok" ↔ (tablesOK tbl = true ∧ out = filterTb tbl inp) := by
+  unfold filterClause
+  constructor
+  · intro h
+    by_cases hok : tablesOK tbl = true
+    · refine ⟨hok, ?_⟩
+      by_cases he : (out == filterTb tbl inp) = true
+      · exact eq_of_beq he
+      · exfalso
+        simp only [hok, Bool.not_true, Bool.false_eq_true, if_false, he] at h
+        split at h
+        · split at h
+          · exact absurd h (by decide)
+          · rename_i hw
+            exact hw (by simp [h])
+        · split at h
+          · exact absurd h (by decide)
+          · rename_i hw
+            exact hw (by simp [h])
+    · exfalso
+      simp only [hok, Bool.not_false, if_true] at h
+      exact absurd h (by decide)
+  · rintro ⟨hok, h⟩
+    simp [hok, h]
+
+/-- ... hence a rendering in the sense of `Renders` - the literal clause "only collapses complete runs of boilerplate
+    lines into one marker each and leaves every other line untouched and in order" -/
 theorem C18_filter_observer_sound (tbl : List Repl) (inp : List Line) (out : List Out)
     (h : filterClause tbl inp out = "ok") : Renders tbl inp out := by
-  unfold filterClause at h
-  by_cases h1 : rendersB tbl inp out = true
-  · exact rendersB_sound tbl out inp h1
-  · exfalso
-    simp only [h1] at h
-    split at h
-    · exact absurd h (by decide)
-    · simp only [Bool.false_eq_true, if_false] at h
-      split at h
-      · exact absurd h (by decide)
-      · rename_i hw
-        exact hw (by simp [h])
+  obtain ⟨hok, he⟩ := (C18_filter_observer_exact tbl inp out).mp h
+  rw [he]
+  exact C18_filter_sound tbl hok inp
 
 /-- no complete run of any table entry at any position ⇒ the filter is the identity
-    (hypothesis stated without the model's functions: no decomposition `pre ++ seg ++ post` with `seg` a complete run) -/
+    (hypothesis stated without the model's functions: no decomposition `pre ++ seg ++ post` with `seg` a complete run;
+    a table with an empty pattern list cannot satisfy it - the empty run is complete everywhere - so this says nothing
+    about such tables, like `C18_filter_sound`) -/
 theorem C18_filter_id (tbl : List Repl) (lines : List Line)
     (h : ∀ r ∈ tbl, ∀ pre seg post, lines = pre ++ seg ++ post → ¬ Complete r.pats seg) :
     filterTb tbl lines = lines.map .copy := by
@@ -255,7 +284,7 @@ theorem C18_glue_starts_at_awaiter (bottom : Bottom) (lv : Nat) (L : Level) (res
     `except E as e: raise e`), whatever its await style, orphan flag, or the code after its await - arrives with
     exactly one generator frame per crossed level in front, outermost first, and is still THAT exception -/
 theorem C18_ref_passing_prefix (bottom : Bottom) (pre tail : List Level)
-    (hpre : ∀ L ∈ pre, L.handler.passes = true) (htail : tail ≠ []) :
+    (hpre : ∀ L ∈ pre, L.handler.passes = true) :
     ∀ (lv tok : Nat) (fs : List Frame), ref bottom (lv + pre.length) tail = some (tok, fs) →
       ref bottom lv (pre ++ tail) = some (tok, (List.range' lv pre.length).map Frame.task ++ fs) := by
   induction pre with
@@ -266,20 +295,29 @@ theorem C18_ref_passing_prefix (bottom : Bottom) (pre tail : List Level)
     have h' : ref bottom (lv + 1 + pre.length) tail = some (tok, fs) := by
       rw [← h]; congr 1; simp only [List.length_cons]; omega
     have := ih (fun M hM => hpre M (by simp [hM])) (lv + 1) tok fs h'
-    rw [List.cons_append, ref_cons bottom lv L (pre ++ tail) (Or.inl (by simp [htail])), this]
+    -- `tail = []` is possible only above an ErrorFuture (a hook bottom delivers nothing to an empty tail)
+    have hh : pre ++ tail ≠ [] ∨ ∀ r k, bottom ≠ .hook r k := by
+      cases tail with
+      | cons T tl => exact Or.inl (by simp)
+      | nil =>
+        refine Or.inr ?_
+        intro r k hb
+        rw [hb] at h
+        simp [ref] at h
+    rw [List.cons_append, ref_cons bottom lv L (pre ++ tail) hh, this]
     cases hh : L.handler <;> simp [Handler.passes, hh] at hL <;> simp [refStep, hh, List.range'_succ]
 
 /-- **... and what the caller catches in the model of the code**: the same exception object, its traceback =
     the caller's frame, one frame per crossed level `0 .. d-1` in call order, then the frames `fs` the exception had
     when it left `tail`; `format_error` prints the same without the caller.  For every frame rule, bottom, and chain. -/
 theorem C18_glue_crosses (rule : FrameRule) (bottom : Bottom) (pre tail : List Level) (tok : Nat) (fs : List Frame)
-    (hpre : ∀ L ∈ pre, L.handler.passes = true) (htail : tail ≠ [])
+    (hpre : ∀ L ∈ pre, L.handler.passes = true)
     (href : ref bottom pre.length tail = some (tok, fs)) :
     ∃ e, (run rule bottom 0 [] (pre ++ tail)).out = some e ∧ e.tok = tok ∧
       userFrames (callerView e) = .caller :: ((List.range pre.length).map Frame.task ++ fs) ∧
       userFrames e.tb = (List.range pre.length).map Frame.task ++ fs := by
   have hg := C18_glue rule bottom (pre ++ tail)
-  have hr := C18_ref_passing_prefix bottom pre tail hpre htail 0 tok fs (by simpa using href)
+  have hr := C18_ref_passing_prefix bottom pre tail hpre 0 tok fs (by simpa using href)
   rw [hr] at hg
   cases ho : (run rule bottom 0 [] (pre ++ tail)).out with
   | none => simp [ho] at hg
@@ -302,7 +340,7 @@ theorem C18_glue_crosses_own (rule : FrameRule) (bottom : Bottom) (pre : List Le
     rcases hbelow with hb | hb
     · simp [refStep, hb, hown]
     · cases hc : ref bottom (pre.length + 1) below <;> simp [refStep, hb, hown]
-  obtain ⟨e, h1, h2, h3, _⟩ := C18_glue_crosses rule bottom pre (R :: below) _ _ hpre (by simp) href
+  obtain ⟨e, h1, h2, h3, _⟩ := C18_glue_crosses rule bottom pre (R :: below) _ _ hpre href
   exact ⟨e, h1, h2, by rw [h3]; simp [raisedIn, List.range_succ]⟩
 
 /-- instance: the raiser is `pause()` / `resume()` of a context entered by the innermost level `d` (blocked on a batch
@@ -313,7 +351,7 @@ theorem C18_glue_crosses_hook (rule : FrameRule) (onResume : Bool) (h : Nat) (pr
     ∃ e, (run rule (.hook onResume h) 0 [] (pre ++ [R])).out = some e ∧ e.tok = hookTok ∧
       userFrames (callerView e) = .caller :: ((List.range pre.length).map Frame.task ++ hookFrames pre.length h) := by
   obtain ⟨e, h1, h2, h3, _⟩ := C18_glue_crosses rule (.hook onResume h) pre [R] hookTok (hookFrames pre.length h) hpre
-    (by simp) (by simp [ref])
+    (by simp [ref])
   exact ⟨e, h1, h2, h3⟩
 
 /-- asynq.debug.extract_tb (which skips frames of modules that set `__traceback_hide__`) hides library frames only:
@@ -342,7 +380,7 @@ theorem C18_stack_orphan_partial (rule : FrameRule) (bottom : Bottom) (levels : 
     orphanEvents (run rule bottom 0 [] levels).lines 0 levels = refOrphans 0 levels := by
   simpa using run_orphans rule bottom levels 0 [] [] rfl rfl hsafe
 
-/-- ... and without that hypothesis it is FALSE of the current code: level 0 calls level 1 synchronously, level 1
+/-- ... and without that hypothesis it was FALSE of the code before the fix (`FrameRule.deepest`): level 0 calls level 1 synchronously, level 1
     raises; `_continue_on_generator` stores the deepest traceback frame - level 1's - as level 0's `_frame`, so the
     orphan created by level 0 is told its creator is level 1 -/
 theorem C18_stack_orphan_counterexample :
@@ -407,6 +445,83 @@ theorem C18_glue_spec_holds_partial (rule : FrameRule) (bottom : Bottom) (levels
     glueClause bottom levels (runTop rule bottom levels) = "ok" :=
   (C18_glue_observer_exact bottom levels _).mpr (C18_glue_refines_partial rule bottom levels hsafe)
 
+/-! ### the name of the recorded finding -/
+
+theorem glueEventClause_known (bottom : Bottom) (levels : List Level) (g : Event)
+    (h : glueEventClause bottom levels g = "stack-foreign-entry-sync") :
+    stackSafe bottom 0 levels = false ∧ g ∈ runTop .deepest bottom levels ∧
+      ∃ lv ls, g = .stack .orphan lv ls ∧ ls ≠ List.range (lv + 1) ++ [1000 + lv] := by
+  cases g with
+  | stack k lv ls =>
+    cases k with
+    | orphan =>
+      simp only [glueEventClause, orphanWrongName] at h
+      by_cases he : (ls == List.range (lv + 1) ++ [1000 + lv]) = true
+      · simp [he] at h
+      · simp only [he, Bool.false_eq_true, if_false] at h
+        split at h
+        · rename_i hc
+          simp only [Bool.and_eq_true, Bool.not_eq_true', List.contains_iff_mem] at hc
+          exact ⟨hc.1, hc.2, lv, ls, rfl, fun hh => he (by simp [hh])⟩
+        · exact absurd h (by decide)
+    | start | handler =>
+      simp only [glueEventClause] at h
+      split at h <;> exact absurd h (by decide)
+  | result r =>
+    simp only [glueEventClause] at h
+    split at h
+    · exact absurd h (by decide)
+    · repeat' split at h
+      all_goals exact absurd h (by decide)
+    · exact absurd h (by decide)
+    · exact absurd h (by decide)
+
+theorem glueWhy_known (bottom : Bottom) (levels : List Level) :
+    ∀ (es gs : List Event), glueWhy bottom levels es gs = "stack-foreign-entry-sync" →
+      ∃ g ∈ gs, glueEventClause bottom levels g = "stack-foreign-entry-sync" := by
+  intro es
+  induction es with
+  | nil =>
+    intro gs h
+    cases gs <;> simp only [glueWhy] at h <;> exact absurd h (by decide)
+  | cons e es ih =>
+    intro gs h
+    cases gs with
+    | nil =>
+      simp only [glueWhy] at h
+      split at h <;> exact absurd h (by decide)
+    | cons g gs =>
+      simp only [glueWhy] at h
+      split at h
+      · split at h
+        · obtain ⟨g', hg', hc⟩ := ih gs h
+          exact ⟨g', by simp [hg'], hc⟩
+        · exact ⟨g, by simp, h⟩
+      · repeat' split at h
+        all_goals exact absurd h (by decide)
+
+/-- **the signature of the recorded finding cannot swallow anything else** (audit 2, N8): if the observer names an
+    implementation's events "stack-foreign-entry-sync", then the chain is outside `stackSafe` (so
+    `C18_glue_refines_partial` does not claim the code right there) AND one of the implementation's events is an
+    orphan's answer that is wrong and is exactly the answer the model of the defective code (`FrameRule.deepest`)
+    predicts for this chain.  Every other wrong orphan answer is named "stack-orphan-wrong". -/
+theorem C18_known_signature_exact (bottom : Bottom) (levels : List Level) (events : List Event)
+    (h : glueClause bottom levels events = "stack-foreign-entry-sync") :
+    stackSafe bottom 0 levels = false ∧
+    ∃ lv ls, Event.stack .orphan lv ls ∈ events ∧ Event.stack .orphan lv ls ∈ runTop .deepest bottom levels ∧
+      ls ≠ List.range (lv + 1) ++ [1000 + lv] := by
+  unfold glueClause at h
+  split at h
+  · exact absurd h (by decide)
+  · have hw : glueWhy bottom levels (refTop bottom levels) events = "stack-foreign-entry-sync" := by
+      simp only at h
+      split at h
+      · exact absurd h (by decide)
+      · exact h
+    obtain ⟨g, hg, hc⟩ := glueWhy_known bottom levels _ _ hw
+    obtain ⟨h1, h2, lv, ls, rfl, h3⟩ := glueEventClause_known bottom levels g hc
+    exact ⟨h1, lv, ls, hg, h2, h3⟩
+
 /-! ## str / repr / dump -/
 
 /-- where the model of the current code can fail: `_AsyncGenerator.__repr__` reading an attribute that `__init__` never
@@ -453,12 +568,15 @@ theorem C18_repr_spec_holds_partial (kind opName : String) (o : Obj) (op : Op)
 
 /-- every object whose text is one format string over a held value (scoped values, their override contexts,
     `generator.Value`) describes itself whatever the shape of that value - tuples of any length included: no holder
-    hands the value to `%` as the right operand (`Fmt.bare` is what `generator.Value` did before the fix, `pct` shows
-    what that meant) -/
+    hands the value to `%` as the right operand (`Fmt.bare` is what `generator.Value` did before the fix 0bb3d68, `pct`
+    shows what that meant).  BY CONSTRUCTION: `fmtOf` is a constant table (four times `.wrapped`, written by hand after
+    reading the four format expressions); that the real classes behave so is checked by the correspondence run over
+    every value shape, not by this theorem. -/
 theorem C18_repr_holders_total (k : Holder) (p : PayShape) (op : Op) : render (.holder k p) op = .ok .text := by
   cases k <;> cases op <;> simp [render, fmtOf, pct]
 
-/-- ... and the wrapping is needed: a bare `%` fails on tuples (CPython's `%`, as modelled by `pct`) -/
+/-- ... and the wrapping is needed: a bare `%` fails on tuples (CPython's `%`, as modelled by `pct`; a `decide` on
+    that table - by construction) -/
 theorem C18_bare_percent_fails :
     pct .bare (.tuple 0) = .raised .typeError ∧ pct .bare (.tuple 1) = .raised .misdescribed ∧
     pct .bare (.tuple 2) = .raised .typeError := by
@@ -474,28 +592,45 @@ theorem C18_repr_flags_needed :
     render (.constInit false) .dump = .raised .attributeError := by
   decide
 
-/-- **`format_error` accepts any exception with or without traceback** (`isExc`, or None): it never raises, returns
-    None exactly for None, and for an exception a text - with a traceback part iff a traceback was passed or stored by
-    asynq on the exception.  (For something that is neither None nor an exception the statement says nothing; with a
-    traceback the code raises AttributeError - `C18_format_error_non_exception`.) -/
-theorem C18_format_error_total (i : FeIn) (h : i.isNone = true ∨ i.isExc = true) :
+/-- `format_error` accepts any exception with or without traceback (`isExc`, or None; `_traceback` absent, None or a
+    traceback): in the model it never raises, returns None exactly for None, and for an exception a text - with a
+    traceback part iff a traceback was passed or stored by asynq on the exception.  BY CONSTRUCTION: conjunct 1 is the
+    negation of `feRaises` under the hypotheses, the others read off the five-line table `formatError`; the content of
+    the clause is the correspondence run (every cell is driven on the real function).  Both hypotheses are needed:
+    `C18_format_error_non_exception`, `C18_format_error_garbage_traceback_attr`. -/
+theorem C18_format_error_total (i : FeIn) (h : i.isNone = true ∨ i.isExc = true) (hg : i.tbAttr ≠ .garbage) :
     (∀ op, (render (.fmtErr i) op).isOk = true) ∧
     (formatError i = .none ↔ i.isNone = true) ∧
     (i.isNone = false → formatError i = .withTraceback ∨ formatError i = .onlyException) ∧
-    (formatError i = .withTraceback ↔ (i.isNone = false ∧ (i.tbArg = true ∨ i.tbAttr = some true))) := by
+    (formatError i = .withTraceback ↔ (i.isNone = false ∧ (i.tbArg = true ∨ i.tbAttr = .real))) := by
   obtain ⟨n, x, ta, tg⟩ := i
   refine ⟨fun op => ?_, ?_⟩
-  · cases op <;> cases n <;> cases x <;> simp_all [render, feRaises, Res.isOk]
-  · cases n <;> cases x <;> cases tg <;> rcases ta with _ | _ | _ <;> simp_all [formatError]
+  · cases op <;> cases n <;> cases x <;> cases ta <;> simp_all [render, feRaises, Res.isOk]
+  · cases n <;> cases x <;> cases tg <;> cases ta <;> simp_all [formatError]
 
 /-- outside the statement: `format_error("some string", tb)` (debug.py:120-122 hands the object to
     `traceback.format_exception`) raises AttributeError in the model of the code; without any traceback it returns an
     empty text.  The observer does not judge these cells (`inStatement`). -/
 theorem C18_format_error_non_exception :
-    render (.fmtErr ⟨false, false, none, true⟩) .str = .raised .attributeError ∧
-    render (.fmtErr ⟨false, false, some true, false⟩) .str = .raised .attributeError ∧
-    render (.fmtErr ⟨false, false, none, false⟩) .str = .ok (.fe .empty) ∧
-    reprClause "formatError" "str" (.fmtErr ⟨false, false, none, true⟩) (.raised .attributeError) = "ok" := by
+    render (.fmtErr ⟨false, false, .absent, true⟩) .str = .raised .attributeError ∧
+    render (.fmtErr ⟨false, false, .real, false⟩) .str = .raised .attributeError ∧
+    render (.fmtErr ⟨false, false, .absent, false⟩) .str = .ok (.fe .empty) ∧
+    reprClause "formatError" "str" (.fmtErr ⟨false, false, .absent, true⟩) (.raised .attributeError) = "ok" := by
+  decide
+
+/-- outside the statement too (audit 2, N7): an exception whose private `_traceback` attribute holds something that is
+    neither None nor a traceback.  `tb = tb or error._traceback` hands it to `traceback.format_exception`, which walks
+    it: AttributeError - unless a real traceback is passed as `tb`.  asynq and qcore only ever store
+    `sys.exc_info()[2]` there; the cell is driven and compared, not judged. -/
+theorem C18_format_error_garbage_traceback_attr :
+    render (.fmtErr ⟨false, true, .garbage, false⟩) .str = .raised .attributeError ∧
+    render (.fmtErr ⟨false, true, .garbage, true⟩) .str = .ok (.fe .withTraceback) ∧
+    render (.fmtErr ⟨true, false, .garbage, false⟩) .str = .ok (.fe .none) ∧
+    inStatement (.fmtErr ⟨false, true, .garbage, false⟩) = false ∧
+    reprClause "formatError" "str" (.fmtErr ⟨false, true, .garbage, false⟩) (.raised .attributeError) = "ok" ∧
+    -- ... while `_traceback = None` on an exception is inside the statement and fine
+    render (.fmtErr ⟨false, true, .isNone, false⟩) .str = .ok (.fe .onlyException) ∧
+    inStatement (.fmtErr ⟨false, true, .isNone, false⟩) = true := by
   decide
 
 /-! ## non-vacuity, and what the observers reject -/
@@ -626,5 +761,79 @@ example : reprClause "scopedValue" "str" (.holder .scopedValue (.tuple 2)) (rend
     wellFormed (.asyncGen [0, 1, 2] [0, 2]) = true ∧ wellFormed (.constInit true) = true ∧
     wellFormed (.holder .genValue (.tuple 2)) = true := by
   decide
+
+/-! ### the hypotheses of the gluing theorems are needed (machine-checked witnesses) -/
+
+/-- `hpre` of `C18_ref_passing_prefix` / `C18_glue_crosses` / `_crosses_own` / `_crosses_hook`: a crossed level that
+    swallows, or raises something new, does not hand the exception on -/
+example :
+    ref .none 1 [Lr 0] = some (11, [.task 1]) ∧
+    ref .none 0 ([⟨.yld, .swallow, none, false⟩] ++ [Lr 0]) = none ∧
+    ref .none 0 ([⟨.yld, .raiseNew 0, none, false⟩] ++ [Lr 0]) = some (2, [.task 0]) := by
+  decide
+
+/-- `hbelow` of `C18_glue_crosses_own`: if the levels below the would-be raiser fail and it does not swallow, its own
+    raise is never reached - the caller sees the lower exception -/
+example :
+    (⟨.yld, .pass, some 1, false⟩ : Level).own = some 1 ∧
+    ref .none 0 [⟨.yld, .pass, some 1, false⟩, Lr 0] = some (11, [.task 0, .task 1]) := by
+  decide
+
+/-- `hh` of `C18_glue_crosses_own` and of `C18_glue_starts_at_awaiter`: the innermost level of a chain whose bottom is a
+    context hook is failed from outside by the scheduler - its own raise never runs, and the traceback starts with the
+    hook, not with that level's generator frame -/
+example :
+    ref (.hook false 0) 0 [⟨.yld, .pass, some 0, false⟩] = some (4, [.hook 0]) ∧
+    (runTop .deepest (.hook false 0) [⟨.yld, .pass, some 0, false⟩]).getLast? =
+      some (.result (some (4, [.caller, .hook 0], [.caller, .hook 0], [.hook 0]))) := by
+  decide
+
+/-- `C18_ref_passing_prefix` with an EMPTY tail (the hypothesis `tail ≠ []` of the earlier version was not needed):
+    the exception of an ErrorFuture crosses two passing levels -/
+example : ref .errFuture 0 ([Lp, Lp] ++ []) = some (3, [.task 0, .task 1]) := by decide
+
+/-- audit 2, N8: a wrong orphan answer on a chain where nothing fails (`stackSafe`, model = reference) used to be
+    named after the open finding because level 0 awaits synchronously; it is "stack-orphan-wrong" now.  Same for a
+    wrong entry at the index of a synchronously awaiting level deeper in a safe chain. -/
+example :
+    stackSafe .none 0 [⟨.sync, .pass, none, true⟩, ⟨.yld, .pass, none, false⟩] = true ∧
+    glueClause .none [⟨.sync, .pass, none, true⟩, ⟨.yld, .pass, none, false⟩]
+      [.stack .start 0 [0], .stack .start 1 [0, 1], .result none, .stack .orphan 0 [1, 1000]] = "stack-orphan-wrong" ∧
+    stackSafe .none 0 [⟨.yld, .pass, none, false⟩, ⟨.sync, .pass, none, true⟩, ⟨.yld, .pass, none, false⟩] = true ∧
+    glueClause .none [⟨.yld, .pass, none, false⟩, ⟨.sync, .pass, none, true⟩, ⟨.yld, .pass, none, false⟩]
+      [.stack .start 0 [0], .stack .start 1 [0, 1], .stack .start 2 [0, 1, 2], .result none,
+       .stack .orphan 1 [0, 7, 1001]] = "stack-orphan-wrong" := by
+  decide
+
+/-- ... and on the chain of `C18_stack_orphan_counterexample` itself (outside `stackSafe`) only the predicted wrong
+    answer `[1, 1000]` carries the recorded name; another wrong answer, or a too short one, does not -/
+example :
+    glueClause .none [⟨.sync, .pass, none, true⟩, Lr 0]
+      [.stack .start 0 [0], .stack .start 1 [0, 1],
+       .result (some (11, [.caller, .task 0, .task 1], [.caller, .task 0, .task 1], [.task 0, .task 1])),
+       .stack .orphan 0 [5, 1000]] = "stack-orphan-wrong" ∧
+    glueClause .none [⟨.sync, .pass, none, true⟩, Lr 0]
+      [.stack .start 0 [0], .stack .start 1 [0, 1],
+       .result (some (11, [.caller, .task 0, .task 1], [.caller, .task 0, .task 1], [.task 0, .task 1])),
+       .stack .orphan 0 [1000]] = "stack-orphan-wrong" ∧
+    glueClause .none [⟨.sync, .pass, none, true⟩, Lr 0]
+      [.stack .start 0 [0], .stack .start 1 [0, 1],
+       .result (some (11, [.caller, .task 0, .task 1], [.caller, .task 0, .task 1], [.task 0, .task 1])),
+       .stack .orphan 0 [1, 1000]] = "stack-foreign-entry-sync" := by
+  decide
+
+/-- audit 2 (report N6; audit 1 test c / c2): the filter that never collapses, on an input with a complete run, and the
+    marker of a LATER table entry where an earlier one matches, were accepted (both are renderings); rejected now -/
+example :
+    filterClause [⟨[0, 1, 1], 0⟩] [⟨0, [0]⟩, ⟨1, [0, 1]⟩, ⟨2, [0, 1]⟩]
+      [.copy ⟨0, [0]⟩, .copy ⟨1, [0, 1]⟩, .copy ⟨2, [0, 1]⟩] = "complete-run-not-collapsed" ∧
+    filterClause [⟨[0], 0⟩, ⟨[0, 1], 1⟩] [⟨0, [0]⟩, ⟨1, [1]⟩] [.marker 1] = "marker-not-first-match" ∧
+    filterClause [⟨[0], 0⟩, ⟨[0, 1], 1⟩] [⟨0, [0]⟩, ⟨1, [1]⟩] (filterTb [⟨[0], 0⟩, ⟨[0, 1], 1⟩] [⟨0, [0]⟩, ⟨1, [1]⟩]) = "ok" ∧
+    -- a run collapsed one position later than the scan meets it is a rendering too, and not the model's output
+    filterClause [⟨[0], 0⟩] [⟨0, [0]⟩, ⟨1, [0]⟩] [.copy ⟨0, [0]⟩, .marker 0] = "complete-run-not-collapsed" := by
+  decide
+
+/-- audit 2, N7: `format_error` of an exception whose `_traceback` is garbage - the model used to say "returns" -/
+example : render (.fmtErr ⟨false, true, .garbage, false⟩) .str = .raised .attributeError := by decide
 
 end AsynqModel.Debug
